@@ -21,6 +21,8 @@ import (
 	"time"
 
 	"k8s.io/utils/clock"
+
+	"github.com/dapr/kit/verifhook"
 )
 
 // OptionsCoalescing configures a Coalescing RateLimiter.
@@ -136,9 +138,11 @@ func (c *coalescing) Run(ctx context.Context, ch chan<- struct{}) error {
 
 		case <-c.inputCh:
 			c.handleInputCh(ctx, ch)
+			verifhook.Point("coalescing.inputHandled")
 
 		case <-timerCh:
 			c.handleTimerFired(ctx, ch)
+			verifhook.Point("coalescing.timerHandled")
 		}
 	}
 }
